@@ -313,9 +313,18 @@ def check_equivariance(ctx: Ctx, im, blocks0, blocks1, lab1, lab2):
                      str(show(blocks1)), str(want))
 
 
-def blaze_case(ctx: Ctx, batch: Batch | None, im, eids, qids, tag: str, check_hpm_model=False):
+DTYPES = ["bool", "bool", "bool", "bool", "int64", "int8", "uint8", "float64"]
+
+
+def blaze_case(ctx: Ctx, batch: Batch | None, im, eids, qids, tag: str, check_hpm_model=False, dtype="bool"):
+    """`dtype`: the numpy type in which the 0/1 incidence matrix is handed to the implementation (the pattern, the model request and the
+    oracle are the same: an incidence matrix of zeros and ones is an incidence matrix whatever its element type)"""
     case = {"kind": "blaze", "shape": list(im.shape), "bits": bits_of(im), "eids": [int(e) for e in eids], "qids": [int(q) for q in qids], "tag": tag}
-    req, reply, blocks, problems, pre = impl_blaze(im, eids, qids)
+    im = np.asarray(im, dtype=bool)
+    if dtype != "bool":
+        case["dtype"] = dtype
+        ctx.count(f"blaze:dtype:{dtype}")
+    req, reply, blocks, problems, pre = impl_blaze(im if dtype == "bool" else im.astype(dtype), eids, qids)
     blaze_case.last_blocks = blocks
     ctx.evaluations += 1
     for p in problems:
@@ -362,6 +371,9 @@ def run_blaze(ctx: Ctx, oracle_only=False, scale=1):
                 first = blaze_case.last_blocks
                 blaze_case(ctx, b, im, lab1, lab2, f"exh{n}-relabelled")
                 check_equivariance(ctx, im, first, blaze_case.last_blocks, lab1, lab2)
+            if n <= 3:
+                # every small pattern also as an integer-typed 0/1 matrix
+                blaze_case(ctx, b, im, list(range(n)), list(range(n)), f"exh{n}-int", dtype="int64" if n % 2 else "uint8")
             npm += pm
         if b is not None and len(b.reqs) > 40000:
             b.flush()
@@ -377,7 +389,7 @@ def run_blaze(ctx: Ctx, oracle_only=False, scale=1):
             im = np.array([(bits >> k) & 1 for k in range(16)], dtype=bool).reshape(4, 4)
             if rng.chance(0.5):
                 im = im | perm_matrix(rng, 4)
-            blaze_case(ctx, b, im, labelling(rng, 4, rng.randint(0, 1)), labelling(rng, 4, rng.randint(0, 1)), "n4")
+            blaze_case(ctx, b, im, labelling(rng, 4, rng.randint(0, 1)), labelling(rng, 4, rng.randint(0, 1)), "n4", dtype=rng.choice(DTYPES))
         if b is not None:
             b.flush()
     # sampled larger matrices
@@ -390,7 +402,7 @@ def run_blaze(ctx: Ctx, oracle_only=False, scale=1):
             n = rng.randint(1, 9)
         im = gen_matrix(rng, kind, n)
         lk = rng.randint(0, 1)
-        blaze_case(ctx, b, im, labelling(rng, im.shape[0], lk), labelling(rng, im.shape[1], lk), kind)
+        blaze_case(ctx, b, im, labelling(rng, im.shape[0], lk), labelling(rng, im.shape[1], lk), kind, dtype=rng.choice(DTYPES))
         ctx.count(f"blaze:size:{'5-12' if n <= 12 else '13-40'}")
         if b is not None and len(b.reqs) > 20000:
             b.flush()
@@ -417,9 +429,19 @@ def seq_source(eqs):
     """eqs: list of (lhs, reads0, lagged, exo) over name numbers; a distinct constant makes every equation text unique"""
     lines = []
     for k, (lhs, r0, rl, exo) in enumerate(eqs):
-        terms = [f"v{v}" for v in r0] + [f"v{v}{{-{1 + (v % 2)}}}" for v in rl] + [f"x{v}" for v in exo] + [f"{k + 1}.5"]
+        # rl: shifted references to LHS names, which must not count: v >= 0 is a lag of v, v < 0 a LEAD of variable -v-1
+        terms = ([f"v{v}" for v in r0] + [f"v{v}{{-{1 + (v % 2)}}}" if v >= 0 else f"v{-v - 1}{{+{1 + ((-v - 1) % 2)}}}" for v in rl]
+                 + [f"x{v}" for v in exo] + [f"{k + 1}.5"])
         lines.append(f"  v{lhs} = " + " + ".join(terms) + ";")
     return "!equations\n" + "\n".join(lines) + "\n"
+
+
+def tok_text(e) -> str:
+    """request form of an equation: `lhs:tok,tok..` with zero-shift names as `n` and lags/leads of LHS names as `n@shift`
+    (the same shifts that seq_source writes); dropping the shifted ones is the model's business (SEq.ofTokens), as it is the code's"""
+    zero = [str(v) for v in sorted(set(e[1]) | {1000 + x for x in e[3]})]
+    shifted = [f"{v}@-{1 + (v % 2)}" if v >= 0 else f"{-v - 1}@+{1 + ((-v - 1) % 2)}" for v in e[2]]
+    return f"{e[0]}:" + ",".join(zero + shifted)
 
 
 def name_num(name: str) -> int:
@@ -488,6 +510,7 @@ def gen_seq(rng, kind):
     out = []
     for lhs, r0 in eqs:
         rl = [v for v in range(n) if rng.random() < 0.15]                # lagged references to LHS names: must be ignored
+        rl += [-v - 1 for v in range(n) if rng.random() < 0.15]          # ... and leads of LHS names, likewise
         exo = [v for v in range(3) if rng.random() < 0.3]              # names that are nobody's LHS
         out.append((lhs, sorted(set(r0)), rl, exo))
     return out
@@ -515,7 +538,7 @@ def seq_case(ctx: Ctx, batch: Batch | None, eqs, kind):
     state = ";".join(f"{eqs[i][0]}:" + csv(reads(eqs[i])) for i in after) if all(i >= 0 for i in after) else "state-has-unknown-equations"
     valid = "T" if all(i >= 0 for i in after) and seq_valid([eqs[i] for i in after]) else "F"
     reply = f"names={names};im={bits_of(im) if im.size else ''};isseq={'T' if isseq else 'F'};res={res};state={state};valid={valid}"
-    req = "seq " + ";".join(f"{e[0]}:" + csv(reads(e)) for e in eqs)
+    req = "seq " + ";".join(tok_text(e) for e in eqs)
     ctx.evaluations += 1
     ctx.count(f"seq:{kind}")
     ctx.count(f"seq:{kind}:{'ok' if order is not None else 'raises'}")
@@ -662,7 +685,7 @@ def seqops_case(ctx: Ctx, batch: Batch | None, eqs, ops, kind):
                 ctx.count("seqops:sequentialize-after-reorder")
         if -1 in state:
             break
-    req = "seqops " + ";".join(f"{e[0]}:" + csv(reads(e)) for e in eqs) + " | " + " | ".join(
+    req = "seqops " + ";".join(tok_text(e) for e in eqs) + " | " + " | ".join(
         ("r " + (csv(o[1]) or "-")) if o[0] == "r" else o[0] for o in ops[: len(segs) - 1])
     if batch is not None:
         batch.add(case, req, " | ".join(segs))
@@ -778,9 +801,17 @@ def gen_simw(rng):
         # known quantities mentioned on top of the pattern: exogenized variables, parameters that stay parameters
         "extra_exo": [[bool(rng.chance(0.4)) for _ in exo] for _ in range(nt + nm)],
         "extra_par": [[bool(rng.chance(0.3)) for _ in range(npar)] for _ in range(nt)],
-        "nonlinear": [bool(rng.chance(0.4)) for _ in range(nt)],
+        "nonlinear": [bool(rng.chance(0.4)) for _ in range(nt)] if rng.chance(0.5) else [False] * nt,
         "auto": [[bool(rng.chance(0.5)) for _ in range(nt)] for _ in range(nauto)],
     }
+    # `dynamic !! steady` equations: the dynamic version of some transition equations involves other quantities than the steady version
+    # (drawn last so that the rest of the case does not depend on it)
+    bang = [None] * nt
+    if rng.chance(0.5):
+        for i in rng.sample(range(nt), rng.randint(1, min(2, nt))):
+            bang[i] = [bool(rng.chance(0.5)) for _ in range(nt)]
+            bang[i][rng.randint(0, nt - 1)] = True
+    case["bang"] = bang
     return case
 
 
@@ -795,7 +826,8 @@ def simw_layout(case):
     col = {name: k for k, name in enumerate(unknowns)}
     im = np.zeros((nt + nm, nt + nm), dtype=bool)
     shifted = lambda name, s: name + ("" if s == 0 or name[0] != "t" else "[%+d]" % s)
-    teqs, meqs = [], []
+    teqs, meqs, steady_texts = [], [], []
+    bang = case.get("bang") or [None] * nt
     for i in range(nt + nm):
         terms = []
         row = T[i] if i < nt else M[i - nt]
@@ -820,7 +852,14 @@ def simw_layout(case):
             for j in range(npar):
                 if j not in endo and case["extra_par"][i][j]:
                     terms.append(f"p{j}")
-        (teqs if i < nt else meqs).append("  0 = " + " + ".join(terms + [f"{i + 1}.25"]) + ";")
+        steady = "0 = " + " + ".join(terms + [f"{i + 1}.25"])
+        steady_texts.append(steady)
+        if i < nt and bang[i]:
+            # dynamic version: other variables (always all transition variables by name, so it is a legal equation), its own constant
+            dyn = [f"0.7*t{j}" + ("" if (i + j) % 2 else "[-1]") for j in range(nt) if bang[i][j]]
+            teqs.append("  0 = " + " + ".join(dyn + [f"{900 + i + 1}.25"]) + " !! " + steady + ";")
+        else:
+            (teqs if i < nt else meqs).append("  " + steady + ";")
     aeqs = []
     for k in range(nauto):
         terms = [f"t{j}" for j in range(nt) if case["auto"][k][j]] or ["t0"]
@@ -832,12 +871,64 @@ def simw_layout(case):
         lines += ["!measurement-variables", "  " + ", ".join(f"y{j}" for j in range(nm)), "!measurement-equations"] + meqs
     if nauto:
         lines += ["!steady-autovalues"] + aeqs
-    return unknowns, im, "\n".join(lines) + "\n"
+    return unknowns, im, "\n".join(lines) + "\n", steady_texts
+
+
+def simw_blocks_by_name(got_names, unknowns, n):
+    """HumanBlock-like (equations, quantities) pairs -> index blocks by my own identification (equation = the constant ending its steady text,
+    quantity = its name); second value: why the blocks fail clause (i) by name, or None"""
+    col = {name: k for k, name in enumerate(unknowns)}
+    blocks, bad = [], None
+    for eqs_h, qs in got_names:
+        rows = []
+        for h in eqs_h:
+            t = _TAG.search(h)
+            r = int(t.group(1)) - 1 if t else -1
+            if not (0 <= r < n):
+                bad = bad or f"(i) block contains the equation '{h}', which is not one of the {n} steady transition/measurement equations being solved"
+            rows.append(r)
+        for q in qs:
+            if q not in col:
+                bad = bad or f"(i) block contains the quantity '{q}', which is not one of the unknowns {unknowns}"
+        blocks.append(_B(sorted(rows), sorted(col.get(q, -1) for q in qs)))
+    return blocks, bad
+
+
+def simw_second_way(ctx: Ctx, case, src, unknowns, im, n, got_names):
+    """the other public way to the blocks: steady(return_info=True)["blocks"] (needs a successful numerical solve: flat models, when it
+    converges); its blocks are judged by the same clauses and compared with split_into_blocks"""
+    import contextlib, io
+    try:
+        m2 = ir.Simultaneous.from_string(src, flat=True)
+        values = {f"t{j}": 1.0 for j in range(case["nt"])} | {f"y{j}": 1.0 for j in range(case["nm"])} | {f"p{j}": 0.5 for j in range(case["npar"])}
+        m2.assign(**values)
+        kwargs = {}
+        if case["exo"]:
+            plan2 = ir.SteadyPlan(m2)
+            plan2.exogenize(tuple(f"t{j}" for j in case["exo"]))
+            plan2.endogenize(tuple(f"p{j}" for j in case["endo"]))
+            kwargs["plan"] = plan2
+        with contextlib.redirect_stdout(io.StringIO()):
+            info = m2.steady(return_info=True, **kwargs)
+        got2 = [(tuple(b["equations"]), tuple(b["quantities"])) for b in info["blocks"]]
+    except Exception:
+        ctx.count("simw:steady()-did-not-return-blocks")
+        return
+    ctx.count("simw:steady()-blocks-judged")
+    blocks2, bad2 = simw_blocks_by_name(got2, unknowns, n)
+    if bad2:
+        ctx.fail("split-into-blocks", case, "steady(return_info=True)['blocks']: " + bad2 + f"; blocks: {got2}")
+        return
+    oracle_blocks(ctx, "split-into-blocks", case, im, list(range(n)), list(range(n)), blocks2, None)
+    if got_names is not None and got2 != got_names:
+        ctx.disagree("blocks-two-ways", case, f"split_into_blocks: {got_names}", f"steady(return_info=True)['blocks']: {got2}")
 
 
 def simw_case(ctx: Ctx, batch: Batch | None, case):
-    unknowns, im, src = simw_layout(case)
+    unknowns, im, src, steady_texts = simw_layout(case)
     n = len(unknowns)
+    if any(case.get("bang") or []):
+        ctx.count("simw:with-dynamic!!steady-equations")
     ctx.evaluations += 1
     ctx.count("simw:cases")
     for key in ("nm", "nauto"):
@@ -858,21 +949,8 @@ def simw_case(ctx: Ctx, batch: Batch | None, case):
         ctx.disagree("split-into-blocks-full-models", case, f"raised {e!r}", "blocks expected")
         ctx.fail("split-into-blocks", case, f"split_into_blocks raised {e!r} on a model whose solved steady system is square with a perfect matching")
         return
-    # (i) by name: the blocks must hold exactly the solved (transition + measurement) equations and exactly the unknowns
-    col = {name: k for k, name in enumerate(unknowns)}
-    blocks, bad = [], None
-    for eqs_h, qs in got_names:
-        rows = []
-        for h in eqs_h:
-            t = _TAG.search(h)
-            r = int(t.group(1)) - 1 if t else -1
-            if not (0 <= r < n):
-                bad = bad or f"(i) block contains the equation '{h}', which is not one of the {n} transition/measurement equations being solved"
-            rows.append(r)
-        for q in qs:
-            if q not in col:
-                bad = bad or f"(i) block contains the quantity '{q}', which is not one of the unknowns {unknowns}"
-        blocks.append(_B(sorted(rows), sorted(col.get(q, -1) for q in qs)))
+    # (i) by name: the blocks must hold exactly the solved steady (transition + measurement) equations and exactly the unknowns
+    blocks, bad = simw_blocks_by_name(got_names, unknowns, n)
     if bad:
         ctx.fail("split-into-blocks", case, bad + f"; blocks: {got_names}")
         return
@@ -880,6 +958,9 @@ def simw_case(ctx: Ctx, batch: Batch | None, case):
         raise AssertionError("generated steady pattern has no perfect matching")
     oracle_blocks(ctx, "split-into-blocks", case, im, list(range(n)), list(range(n)), blocks, None)
     ctx.nontriv(("simw", n, case["nm"], case["nauto"], len(case["exo"]), tuple(sorted(len(b.eids) for b in blocks if len(b.eids) > 1))))
+    if case["flat"] and not any(case["nonlinear"]):
+        # linear flat models only: one Newton step; a solve that does not converge costs seconds
+        simw_second_way(ctx, case, src, unknowns, im, n, got_names)
     # correspondence: split_into_blocks = blaze on the pattern of the solved equations x unknowns (rows: transition then measurement
     # equations in source order; columns: unknowns by qid, i.e. variables in declaration order, then endogenized parameters)
     req, reply, _, problems, pre = impl_blaze(im, list(range(n)), list(range(n)))
@@ -891,8 +972,7 @@ def simw_case(ctx: Ctx, batch: Batch | None, case):
     try:
         from irispie.simultaneous import _steady
         name_to_qid = m.create_name_to_qid()
-        eq_lines = [l for l in src.split("\n") if l.strip().startswith("0 =")]
-        tokens = [sorted({name_to_qid[x] for x in _re.findall(r"\b([tpys]\d+)\b", l)}) for l in eq_lines]
+        tokens = [sorted({name_to_qid[x] for x in _re.findall(r"\b([tpys]\d+)\b", l)}) for l in steady_texts]
         can_exo = [name_to_qid[f"t{j}"] for j in range(case["nt"])] + [name_to_qid[f"y{j}"] for j in range(case["nm"])]
         exo_q = [name_to_qid[f"t{j}"] for j in case["exo"]]
         endo_q = [name_to_qid[f"p{j}"] for j in case["endo"]]
@@ -929,7 +1009,7 @@ def replay_case(ctx: Ctx, case, batches):
         shape = tuple(case["shape"])
         bits = case["bits"]
         im = np.array([ch == "1" for ch in (bits if bits != "-" else "")], dtype=bool).reshape(shape)
-        blaze_case(ctx, batches.get("blaze"), im, case["eids"], case["qids"], case.get("tag", "replay"))
+        blaze_case(ctx, batches.get("blaze"), im, case["eids"], case["qids"], case.get("tag", "replay"), dtype=case.get("dtype", "bool"))
     elif kind == "seq":
         eqs = [(e[0], e[1], e[2], e[3]) for e in case["eqs"]]
         seq_case(ctx, batches.get("seq"), eqs, case.get("tag", "dag"))
